@@ -281,7 +281,15 @@ def _scenario(R, sc, in_thread):
             elif op == "feed":
                 R.pty.feed_nowait(b"q\x1b[B")
             elif isinstance(op, list) and op[0] == "render":
-                win.render_to_terminal(fmt_rows(ARRAYS[op[1]]), tuple(op[2]))
+                if sc.get("survive"):
+                    # the application catches whatever interrupts a render and carries on; the
+                    # context is then left normally
+                    try:
+                        win.render_to_terminal(fmt_rows(ARRAYS[op[1]]), tuple(op[2]))
+                    except inject.Inject:
+                        obs["survived"] = True
+                else:
+                    win.render_to_terminal(fmt_rows(ARRAYS[op[1]]), tuple(op[2]))
             elif op == "diff":
                 win.get_cursor_vertical_diff()
             elif op == "pos":
@@ -525,6 +533,9 @@ def line_scenarios(rng, quick):
         {"kind": "input", "cfg": {"sigint_event": False, "dtss": True}, "body": INPUT_BODY[4:10] if q else INPUT_BODY[:7],
          "tty": "raw", "flags": os.O_NONBLOCK, "app": True},
         {"kind": "input", "cfg": {"sigint_event": False}, "body": ["send0", "feed", "send0", "send_s", "send0"],
+         "tty": "cbreak", "survive": True},
+        {"kind": "full", "cfg": {"hide_cursor": False}, "body": FULL_BODY[:2], "tty": "cooked", "survive": True},
+        {"kind": "caw", "cfg": {"hide_cursor": False, "keep_last_line": True}, "body": [["render", 0, [1, 1]], ["render", 3, [0, 0]]],
          "tty": "cbreak", "survive": True},
         {"kind": "full", "cfg": {"hide_cursor": True}, "body": FULL_BODY[1:4] if q else FULL_BODY, "tty": "noecho"},
         {"kind": "caw", "cfg": {"hide_cursor": True, "keep_last_line": True}, "body": CAW_BODY[:4] if q else CAW_BODY,
